@@ -39,7 +39,7 @@ from fractions import Fraction
 
 from . import _rsys as G
 
-N_QUICK, N_THOROUGH = 150, 10000
+N_QUICK, N_THOROUGH = 150, 6000
 NAMES = ("get_odesys", "create_odesys", "callbacks")
 
 GET_CONFIGS = ["get/plain/incl", "get/plain/free", "get/ma/incl", "get/uk/incl", "get/uk/free", "get/named/free",
